@@ -42,7 +42,7 @@ STRENGTHENED = {
     "C02-agent5-3": "MISSED at first (at most a few hundred variables); caught after formulas with a propagation chain of 1200-3000 literals below a two-level conflict were added",
     "C04-agent5-1": "MISSED at first (all values were below 4); caught after 8 % of the boxed programs are shifted by 1e5-1e6 per integer variable (same fractional parts, exact oracle enumerates the shifted box)",
     "C04-agent5-2": "MISSED at first (no solve needed 10 000 pivots); caught after a few subset-sum knapsacks with 12-18 items per quick run (thousands of nodes, bitset DP oracle) were added",
-    "C04-agent5-3": "MISSED at first, and for a long time (a slice of degenerate cones was added, but a cycling instance is a 1-in-35 000 event even among those; 212 000 thorough runs did not hit one); caught since the greybox-guided generator: of 600 candidate cones whose origin is not optimal the one whose root LP needs the most pivots under the code being checked becomes the case - 2 violating instances per quick run at seeds 0-2",
+    "C04-agent5-3": "MISSED at first, and for a long time (a slice of degenerate cones was added, but a cycling instance is a 1-in-35 000 event even among those; 212 000 thorough runs did not hit one); caught since the greybox-guided generator: of 600 candidate cones whose origin is not optimal the one whose root LP needs the most pivots under the code being checked becomes the case - 2 violating instances per quick run at seeds 0-2.  VOID since the repair c390631: a cycling root LP now yields MAX_ITER instead of a wrong OPTIMAL, so the change no longer breaks the statement (the guided family stays: it is the only part of the check that reaches stalling / cycling simplex runs)",
     "C09-agent5-1": "MISSED at first (2 of 20 000 random instances); caught after layered unit-capacity networks with crossing lanes and demand 2-4 were added (5 % of the runs).  VOID since /repo 815dc43: the change only misbehaved through `max_flow`'s own defect (no residual arc without an anti-parallel partner), which was repaired later; with a correct `max_flow` the added pre-check is sound, so it is no longer re-run",
     "C09-agent5-2": "MISSED at first (networks had at most 40 arcs); caught after transshipment networks with 55-130 lanes, several plants/customers, potentials-based negative costs and meaningful arc orders were added (0.6 % of the runs, 9-23 hits per quick run)",
     "C09-agent5-3": "MISSED at first; caught after pipeline DAGs with rebates (optional stages, hub, warehouse fan-out) were added: labels that improve again and again within one shortest-path computation",
